@@ -11,11 +11,20 @@
   tied by the AST check and the concurrent stress run in props/C38.py.
 -/
 import MM.Lemmas.C38
+import MM.Gen.C38Sites
 
 namespace MM.C38
 
 /-- Constants of the source are the ones the statement is about. -/
 theorem C38_tie : Gen.C38.startDialer = 1 ∧ Gen.C38.startListener = 2 ∧ Gen.C38.delta = 2 := by decide
+
+/-- WHO allocates: every place in the code base that builds an outgoing stream-opening frame
+    (STREAM_OPEN, UDP_OPEN, ICMP_OPEN — regenerated list, go/ast over internal/ and cmd/) takes
+    the frame's stream id from `<connection>.NextStreamID()` in the same function, i.e. from the
+    one allocator of the connection the theorems below are about.  A second source of ids for a
+    connection (a separate counter, arithmetic) breaks this. -/
+theorem C38_open_sites_allocated :
+    Gen.C38Sites.openSites ≠ [] ∧ ∀ s ∈ Gen.C38Sites.openSites, s.source = "NextStreamID" := by decide
 
 /-- For any interleaving of fewer than 2^63 `Next` calls on one allocator: the ids are pairwise
     distinct, non-zero, representable, and odd for the dialer / even for the listener. -/
